@@ -1344,7 +1344,7 @@ class UnitQuaternion(Quaternion):
 
         :seealso: :func:`~spatialmath.UnitQuaternion.angvec`, :func:`~spatialmath.quaternion.UnitQuaternion.exp`, :func:`~spatialmath.base.transforms3d.angvec2r`
         """
-        v = base.getvector(v, 3)
+        v = base.unitvec(base.getvector(v, 3))
         base.isscalar(theta)
         theta = base.getunit(theta, unit)
         return cls(s=math.cos(theta / 2), v=math.sin(theta / 2) * v, norm=False, check=False)
